@@ -5,6 +5,7 @@ import (
 	"fmt"
 	"net/http"
 	"net/http/httptest"
+	"runtime"
 	"sort"
 	"strconv"
 	"strings"
@@ -210,8 +211,17 @@ func (e *Engine) clientFn(op *Op) func(t *Task) {
 					return
 				}
 			}()
+			var m0, m1 runtime.MemStats
+			if e.plan.MeasureAlloc {
+				runtime.ReadMemStats(&m0)
+			}
 			h.ServeHTTP(rw, req)
-			t.setResult(rw.finish())
+			res := rw.finish()
+			if e.plan.MeasureAlloc {
+				runtime.ReadMemStats(&m1)
+				res.AllocBytes = int64(m1.TotalAlloc - m0.TotalAlloc)
+			}
+			t.setResult(res)
 		}()
 	}
 }
@@ -392,8 +402,25 @@ func (t *Task) clearTimedOut() { t.timedOut = false }
 
 func (e *Engine) onStoreCall(t *Task) {
 	c := t.getStore()
-	s := &StoreRec{Serial: e.stCount, Task: t.ID, Op: c.Op, Key: c.Key, Fault: e.plan.storeFault(e.stCount), DoneSeq: -1, Len: len(c.Data), TTLms: c.TTL.Milliseconds()}
+	s := &StoreRec{Serial: e.stCount, Task: t.ID, Op: c.Op, Key: c.Key, Fault: e.plan.storeFault(e.stCount), DoneSeq: -1, Len: len(c.Data), TTLms: c.TTL.Milliseconds(), URL: c.URL}
 	e.stCount++
+	if c.Op == "get" {
+		if lst, ok := e.plan.GetFaults[c.Key]; ok {
+			n := e.getCount[c.Key]
+			e.getCount[c.Key] = n + 1
+			if n < len(lst) {
+				s.Fault = lst[n]
+			}
+		}
+	}
+	if s.Fault != "" {
+		for _, lt := range e.liveTasks() {
+			if lt.blocked && lt.rec != nil {
+				e.hist.Probes["fault-with-waiters-present"]++
+				break
+			}
+		}
+	}
 	s.CallSeq = e.ev("store-call", t.Name, fmt.Sprintf("#%d %s %q len=%d ttl=%dms fault=%q", s.Serial, c.Op, c.Key, len(c.Data), s.TTLms, s.Fault))
 	e.hist.Stores = append(e.hist.Stores, s)
 }
@@ -431,6 +458,7 @@ func (e *Engine) completeStore(t *Task) {
 	}
 	s.T = e.nowMs()
 	s.OutLen = len(c.out)
+	s.CutAt, s.FullLen = c.cutAt, c.fullLen
 	s.DoneSeq = e.ev("store-done", t.Name, fmt.Sprintf("#%d %s -> len=%d err=%q", s.Serial, c.Op, len(c.out), s.Err))
 	if s.Fault != "" {
 		k := s.Fault
@@ -488,6 +516,14 @@ func (e *Engine) applyStore(c *StoreCall, fault string, serial int) {
 		case "trunc":
 			if len(data) > 0 {
 				data = data[:arg%len(data)]
+			}
+		case "cut":
+			// torn record: only the first arg bytes made it to the medium
+			if arg < len(data) {
+				data = data[:arg]
+				e.hist.FaultFired["store:cut-effective"]++
+				c.cutAt = arg
+				c.fullLen = len(r.data)
 			}
 		case "garbage":
 			x := uint64(arg)*2654435761 + 12345
@@ -599,6 +635,8 @@ func (e *Engine) crashRestart(i int, op *Op) {
 		t.markDead()
 		if t.rec != nil {
 			t.rec.Dead = true
+			t.rec.DeadT = e.nowMs()
+			t.rec.DeadSeq = e.seq
 		}
 		if t.OpIdx >= 0 {
 			e.opDone[t.OpIdx] = true
